@@ -246,7 +246,8 @@ class SetField(Contract):
                     c.append(z3.BoolVal(False))
                 return z3.And(*c)
             want = z3.If(existing, 1, z3.If(alias, 2, z3.If(z3.And(newtag, z3.Not(shadows), declared), 1, z3.If(z3.And(newtag, z3.Not(shadows), z3.Not(vnone)), 3, 4))))
-            got = {("set_existing",): 1, ("set_real_name",): 2, ("datatype[field]=default", "data[field]=value"): 3, (): 4}.get(e, 0)
+            # (the two stores of a new tag may come in either order: the contract speaks about what is stored, not about the order)
+            got = {("set_existing",): 1, ("set_real_name",): 2, ("datatype[field]=default", "data[field]=value"): 3, ("data[field]=value", "datatype[field]=default"): 3, (): 4}.get(e, 0)
             return z3.And(z3.Not(virtual) if got in (3, 4) else z3.BoolVal(True), want == got,
                           z3.Implies(want == 4, z3.And(newtag, z3.Not(shadows), z3.Not(declared), vnone)))
         sym = dict(field_has_a_value=in_data, predefined_tag=predefined, alias=alias, virtual=virtual, vlevel=vlevel, valid_custom_tag_name=valid_name,
